@@ -3,6 +3,7 @@ mod crashguard;
 mod hb;
 mod hist;
 mod layouts;
+mod props_buf;
 mod props_hist;
 mod props_sched;
 mod report;
@@ -38,6 +39,7 @@ fn main() {
       subject::cleanup_scratch();
       code
     }
+    "calib" => props_sched::calib(),
     "replay" => {
       let s = std::fs::read_to_string(&args[2]).unwrap_or_else(|e| {
         eprintln!("machinery: cannot read {}: {e}", args[2]);
@@ -48,6 +50,7 @@ fn main() {
       let code = match case["engine"].as_str() {
         Some("hist") => hist::replay(case),
         Some("sched") => sched::replay(case),
+        Some("buf") => props_buf::replay(case),
         _ => {
           eprintln!("machinery: unknown engine in replay file");
           2
@@ -81,6 +84,7 @@ fn dispatch(id: &str, tier: Tier) -> i32 {
   match id {
     "C01" | "C03" | "C08" | "C10" | "C11" | "C20" => props_hist::check(id, tier),
     "C02" | "C07" | "C12" | "C13" => props_sched::check(id, tier),
+    "C14" => props_buf::check(tier),
     _ => {
       eprintln!("machinery: no check for {id}");
       2
